@@ -15,7 +15,54 @@ use crate::digest::Digest;
 use crate::serialize::{Deserializable, Serializable};
 use crate::{Chitchat, ChitchatMessage};
 
+/// System call surface of a UDP socket as `transport/udp.rs` uses it; a simulator implements it
+/// to script what `recv_from` and `send_to` return.
+#[async_trait::async_trait]
+pub trait SimUdpSocket: Send + Sync {
+    async fn recv_from(&self, buf: &mut [u8]) -> std::io::Result<(usize, SocketAddr)>;
+    async fn send_to(&self, payload: &[u8], to_addr: SocketAddr) -> std::io::Result<usize>;
+}
+
+pub type UdpFactory = Box<dyn Fn(SocketAddr) -> std::io::Result<Box<dyn SimUdpSocket>>>;
+
+/// The socket `transport::UdpSocket` wraps when the feature is on: the real one, unless a factory
+/// is installed on the binding thread.
+pub enum RawUdpSocket {
+    Real(tokio::net::UdpSocket),
+    Sim(Box<dyn SimUdpSocket>),
+}
+
+impl RawUdpSocket {
+    pub async fn bind(bind_addr: SocketAddr) -> std::io::Result<RawUdpSocket> {
+        let sim = UDP_FACTORY.with(|cell| cell.borrow().as_ref().map(|factory| factory(bind_addr)));
+        match sim {
+            Some(socket_res) => Ok(RawUdpSocket::Sim(socket_res?)),
+            None => Ok(RawUdpSocket::Real(tokio::net::UdpSocket::bind(bind_addr).await?)),
+        }
+    }
+
+    pub async fn recv_from(&self, buf: &mut [u8]) -> std::io::Result<(usize, SocketAddr)> {
+        match self {
+            RawUdpSocket::Real(socket) => socket.recv_from(buf).await,
+            RawUdpSocket::Sim(socket) => socket.recv_from(buf).await,
+        }
+    }
+
+    pub async fn send_to(&self, payload: &[u8], to_addr: SocketAddr) -> std::io::Result<usize> {
+        match self {
+            RawUdpSocket::Real(socket) => socket.send_to(payload, to_addr).await,
+            RawUdpSocket::Sim(socket) => socket.send_to(payload, to_addr).await,
+        }
+    }
+}
+
+/// Installs (or, with `None`, removes) the factory that makes the sockets bound on this thread.
+pub fn set_udp_factory(factory: Option<UdpFactory>) {
+    UDP_FACTORY.with(|cell| *cell.borrow_mut() = factory);
+}
+
 thread_local! {
+    static UDP_FACTORY: RefCell<Option<UdpFactory>> = const { RefCell::new(None) };
     static SHUFFLE_SEED: Cell<u64> = const { Cell::new(0) };
     static DNS_TABLE: RefCell<Option<HashMap<String, Vec<SocketAddr>>>> = const { RefCell::new(None) };
 }
